@@ -333,7 +333,7 @@ class ContentBench(object):
 
             if any(p.startswith("host") for p in paths):
                 broker = dr.Broker()
-                broker[HostContext] = RecHostContext(root=root, timeout=10)
+                broker[HostContext] = RecHostContext(root=root, timeout=120)
                 broker["cleaner"] = self.cleaner
                 before = len(RecHostContext.calls)
                 dr.run(dr.get_dependency_graph(q), broker=broker)
@@ -347,7 +347,7 @@ class ContentBench(object):
                 if "host-write" in paths:
                     for name, point in (("host-write", base.pt), ("host-cmd-write", base.cmd)):
                         b2 = dr.Broker()
-                        b2[HostContext] = RecHostContext(root=root, timeout=10)
+                        b2[HostContext] = RecHostContext(root=root, timeout=120)
                         b2["cleaner"] = self.cleaner
                         dr.run(dr.get_dependency_graph(point), broker=b2)
                         if point not in b2:
